@@ -18,6 +18,11 @@ struct NearEq {
     bool operator()(const T &a, const T &b) const { return std::fabs(a - b) <= T(0.3); }
 };
 
+template <class T>
+struct CoarseEq {   // tolerance larger than one increment: ++/-- must still notify
+    bool operator()(const T &a, const T &b) const { return std::fabs(a - b) <= T(1.5); }
+};
+
 // model units <-> C++ values
 template <class T>
 struct Conv {
@@ -150,6 +155,7 @@ void run_exec(const Execution &ex) {
     else if (ty == "uns") run_num<unsigned, std::equal_to<unsigned>, false>(ex);
     else if (ty == "float") run_num<float, NearEq<float>, true>(ex);
     else if (ty == "double") run_num<double, NearEq<double>, true>(ex);
+    else if (ty == "fcoarse") run_num<float, CoarseEq<float>, true>(ex);
     else run_str(ex);
 }
 
